@@ -36,6 +36,7 @@ class State:
         self.values = {}  # name -> dict var: set of constant keys
         self.trace = []
         self.decisions = {}
+        self.decision_values = {}  # decision text -> what the tested expression stood for when it was decided
         self.status = "run"  # run | continue | break | return | raise
         self.field = None
 
@@ -45,6 +46,7 @@ class State:
         s.values = {k: set(v) for k, v in self.values.items()}
         s.trace = list(self.trace)
         s.decisions = dict(self.decisions)
+        s.decision_values = dict(self.decision_values)
         s.status = self.status
         s.field = self.field
         return s
@@ -400,6 +402,11 @@ class Specialiser:
         key = self.cond_key(test, s)
         if key in s.decisions:
             return [(s.decisions[key], s)]
+        if isinstance(test, ast.Call):
+            try:
+                s.decision_values[key] = self.ev(test, s)
+            except AnalysisError:
+                pass
         a, b = s, s.fork()
         a.decisions[key] = True
         b.decisions[key] = False
